@@ -130,5 +130,5 @@ SUBS = {"weights": Sub(predicate, strategy=cases)}
 
 
 def jobs(tier):
-    n = 320 if tier == "quick" else 9000
+    n = 320 if tier == "quick" else 36000
     return [{"sub": "weights", "n": n, "shard": i} for i in range(16)]
